@@ -219,3 +219,9 @@ M("c18-zero-off-ignored", "C18", PF, "            data -= self.sub_hdr.zero_off 
 M("c18-nstot-ignored", "C18", PF, '        return self.header.get("NSTOT", self.subint_samples * self.nsubint)', "        return self.subint_samples * self.nsubint", "NSTOT ignored: padding of the last row delivered as data")
 M("c18-tstart-offs", "C18", PF, '            float(self.header["STT_OFFS"]),', "            0.0,", "fractional start second dropped")
 M("c18-stokes-pol", "C18", PF, '        elif self.sub_hdr.poln_state == "Stokes":\n            data = sdata[:, 0, :]', '        elif self.sub_hdr.poln_state == "Stokes":\n            data = sdata[:, 1, :]', "Stokes files deliver Q instead of I")
+
+# ---- C19
+M("c19-bpass-wrong-axis", "C19", K, "    for ichan in prange(nchans):\n        for isamp in range(nsamps):\n            outarray[ichan] += inarray[nchans * isamp + ichan]", "    for isamp in prange(nsamps):\n        for ichan in range(nchans):\n            outarray[ichan] += inarray[nchans * isamp + ichan]", "bandpass loop parallelised over samples: racing += on the per-channel accumulators")
+M("c19-subband-wrong-axis", "C19", K, "    for isamp in prange(nsamps - maxdelay):\n        for ichan in range(nchans):\n            outarray[nsubs * isamp + chan_to_sub[ichan]] += inarray[", "    for ichan in prange(nchans):\n        for isamp in range(nsamps - maxdelay):\n            outarray[nsubs * isamp + chan_to_sub[ichan]] += inarray[", "sub-band loop parallelised over channels: channels of one sub-band race")
+M("c19-moments-shared-minmax", "C19", K, "            m1, m2, count = update_moments_basic(val, m1, m2, count)\n            min_val = min(min_val, val)\n            max_val = max(max_val, val)\n        moments[ichan][\"m1\"], moments[ichan][\"m2\"] = m1, m2", "            m1, m2, count = update_moments_basic(val, m1, m2, count)\n            min_val = min(min_val, val)\n            max_val = max(max_val, val)\n            moments[0][\"max\"] = max(moments[0][\"max\"], val)\n        moments[ichan][\"m1\"], moments[ichan][\"m2\"] = m1, m2", "all threads also write channel 0's maximum")
+M("c19-dedisperse-chan-prange", "C19", K, "    for isamp in prange(nsamps - maxdelay):\n        for ichan in range(nchans):\n            outarray[index + isamp] += inarray[nchans * (isamp + delays[ichan]) + ichan]", "    for ichan in prange(nchans):\n        for isamp in range(nsamps - maxdelay):\n            outarray[index + isamp] += inarray[nchans * (isamp + delays[ichan]) + ichan]", "dedispersion parallelised over channels")
